@@ -219,3 +219,181 @@ split; [|split].
 Qed.
 
 End WithLibm.
+
+(* ================= totality of the square-root sites, for every libm ================= *)
+Definition nonneg_or_inf (x : F) : Prop :=
+  is_nan x = false /\ (is_finite x = true -> 0 <= R_ x) /\ (forall s, x = B754_infinity s -> s = false).
+
+Lemma flt_neg_finite s m e H : flt (B754_finite s m e H) zero = s.
+Proof.
+unfold flt. rewrite Bltb_correct by reflexivity. change (B2R zero) with 0.
+destruct s.
+- apply Rlt_bool_true. assert (K := F2R_lt_0 radix2 (Float radix2 (Z.neg m) e) ltac:(simpl; lia)). exact K.
+- apply Rlt_bool_false. assert (K := F2R_gt_0 radix2 (Float radix2 (Z.pos m) e) ltac:(simpl; lia)). simpl. lra.
+Qed.
+
+(* sqrt(max(x, 0.0)) is never NaN and never negative, whatever x is (NaN included) *)
+Lemma sqrt_max_total x : nonneg_or_inf (fsqrt (fmax x zero)).
+Proof.
+unfold nonneg_or_inf, fsqrt, fmax.
+destruct x as [s|s| |s m e H]; simpl.
+- (* zero *) destruct s; simpl; repeat split; try reflexivity; try (intros; simpl; lra); intros s0 E; discriminate.
+- (* infinity *) destruct s; simpl; repeat split; try reflexivity; try (intros; simpl; lra); try discriminate;
+    intros s0 E; inversion E; reflexivity.
+- (* nan *) repeat split; try reflexivity; try (intros; simpl; lra); intros s0 E; discriminate.
+- rewrite flt_neg_finite. destruct s.
+  + simpl. repeat split; try reflexivity; try (intros; simpl; lra); intros s0 E; discriminate.
+  + generalize (Bsqrt_correct prec emax _ _ mode_NE (B754_finite false m e H)).
+    intros (V & Fn & S).
+    assert (Fin : is_finite (Bsqrt mode_NE (B754_finite false m e H)) = true) by exact Fn.
+    split. { destruct (Bsqrt mode_NE (B754_finite false m e H)); try discriminate; reflexivity. }
+    split.
+    * intros _. rewrite V. apply rnd_ge0_mode. apply sqrt_ge_0.
+    * intros s0 E. rewrite E in Fin. discriminate.
+Qed.
+
+Section WithLibm2.
+Context (L : libm).
+
+(* distance_to is ALWAYS at angle exactly 0 with a magnitude that is never NaN / negative *)
+Lemma fge_zero_nonneg x : nonneg_or_inf x -> fge x zero = true.
+Proof.
+intros (Nn & Pos & Inf). unfold fge, fle.
+destruct x as [s|s| |s m e H]; try discriminate.
+- destruct s; reflexivity.
+- rewrite (Inf s eq_refl). reflexivity.
+- rewrite Bleb_correct by reflexivity. apply Rle_bool_true. change (B2R zero) with 0. now apply Pos.
+Qed.
+
+Lemma fabs_nonneg x : nonneg_or_inf x -> nonneg_or_inf (fabs x).
+Proof.
+intros (Nn & Pos & Inf). destruct x as [s|s| |s m e H]; try discriminate; unfold nonneg_or_inf, fabs; simpl.
+- repeat split; auto; try (intros; lra); intros s0 E; discriminate.
+- repeat split; auto; try discriminate. intros s0 E; inversion E; reflexivity.
+- repeat split; auto. intros _. apply F2R_ge_0. simpl. lia. intros s0 E; discriminate.
+Qed.
+
+Lemma distance_encoding a b :
+  ang (distance_to L a b) = {| rem := zero; blade := 0 |} /\ nonneg_or_inf (mag (distance_to L a b)).
+Proof.
+unfold distance_to.
+set (d2 := fsub _ _).
+pose proof (sqrt_max_total d2) as T.
+unfold scalar. cbn [mag ang]. rewrite (fge_zero_nonneg _ T), new_0_1. split; [reflexivity|now apply fabs_nonneg].
+Qed.
+
+(* the general-path magnitude of Geonum + Geonum is never NaN / negative *)
+Lemma gadd_paths a b :
+  (aeqb (ang a) (ang b) = true -> gadd_vv L a b = {| mag := fadd (mag a) (mag b); ang := ang a |}) /\
+  (aeqb (ang a) (ang b) = false ->
+   aeqb (add_vv (ang a) (new one one)) (ang b) || aeqb (add_vv (ang b) (new one one)) (ang a) = true ->
+   let diff := fsub (mag a) (mag b) in
+   gadd_vv L a b =
+     if flt (fabs diff) EPSILON then {| mag := zero; ang := new_with_blade (blade (ang a) + blade (ang b)) zero one |}
+     else if fgt diff zero then {| mag := diff; ang := ang a |} else {| mag := fneg diff; ang := ang b |}) /\
+  (aeqb (ang a) (ang b) = false ->
+   aeqb (add_vv (ang a) (new one one)) (ang b) || aeqb (add_vv (ang b) (new one one)) (ang a) = false ->
+   nonneg_or_inf (mag (gadd_vv L a b))).
+Proof.
+unfold gadd_vv. split; [|split].
+- intros ->. reflexivity.
+- intros -> ->. reflexivity.
+- intros -> ->. cbn [gnew_with_blade mag]. apply sqrt_max_total.
+Qed.
+
+(* projection: structure, independent of the length of the target *)
+Lemma gproject_struct g onto :
+  (flt (fabs (mag onto)) EPSILON = true ->
+     gproject L g onto = {| mag := zero; ang := new_with_blade (blade (ang g)) zero one |}) /\
+  (flt (fabs (mag onto)) EPSILON = false ->
+     let pf := aproject L (ang g) (ang onto) in
+     gproject L g onto =
+       {| mag := fmul (mag g) (fabs pf);
+          ang := if fge pf zero then ang onto else add_vv (ang onto) (new one one) |}).
+Proof. unfold gproject. split; intros ->; reflexivity. Qed.
+
+Lemma gproject_length_free g o1 o2 : ang o1 = ang o2 ->
+  flt (fabs (mag o1)) EPSILON = false -> flt (fabs (mag o2)) EPSILON = false ->
+  gproject L g o1 = gproject L g o2.
+Proof. intros E H1 H2. unfold gproject. now rewrite H1, H2, E. Qed.
+
+(* reflection: magnitude untouched, never fewer blades than twice the axis's *)
+Lemma reflect_spec g axis : canonp (rem (ang g)) -> Canon (ang axis) ->
+  mag (reflect g axis) = mag g /\ canonp (rem (ang (reflect g axis))) /\
+  (2 * blade (ang axis) <= blade (ang (reflect g axis)))%Z.
+Proof.
+intros Cg [Ca Ba]. split; [reflexivity|].
+unfold reflect. cbn [gnew_with_angle ang]. unfold add_vv, sub_vv. rewrite new_4_1.
+set (cmpl := geometric_sub _ _).
+assert (Cc : canonp (rem cmpl) /\ (0 <= blade cmpl)%Z).
+{ apply geometric_sub_canon. apply canonp_zero. exact Cg. }
+destruct Cc as [Cc Bc].
+destruct (geometric_add_canon (ang axis) (ang axis) Ca Ca) as [C2 B2].
+destruct (geometric_add_canon (geometric_add (ang axis) (ang axis)) cmpl C2 Cc) as [C3 B3].
+split; [exact C3|]. destruct B2 as [B2|B2], B3 as [B3|B3]; rewrite B3, B2; lia.
+Qed.
+
+Lemma reflect_axis_length_free g a1 a2 : ang a1 = ang a2 -> reflect g a1 = reflect g a2.
+Proof. intros E. unfold reflect. now rewrite E. Qed.
+
+(* wedge magnitude and angle skeleton *)
+Lemma wedge_spec a b :
+  let sv := sinF L (grade_angle (sub_vv (ang b) (ang a))) in
+  mag (wedge L a b) = fmul (fmul (mag a) (mag b)) (fabs sv) /\
+  ang (wedge L a b) =
+    let a0 := add_vv (add_vv (ang a) (ang b)) (new one two) in
+    if flt sv zero then add_vv a0 (new one one) else a0.
+Proof. split; reflexivity. Qed.
+
+(* scale_rotate structure *)
+Lemma scale_rotate_spec g f r :
+  scale_rotate g f r =
+    if flt f zero then {| mag := fmul (mag g) (fabs f); ang := add_vv (negate (ang g)) r |}
+    else {| mag := fmul (mag g) f; ang := add_vv (ang g) r |}.
+Proof. unfold scale_rotate. destruct (flt f zero); reflexivity. Qed.
+
+Lemma invert_circle_spec g c r :
+  (invert_circle L g c r = None <-> feq (mag (gsub_vv L g c)) zero = true).
+Proof. unfold invert_circle. destruct (feq (mag (gsub_vv L g c)) zero); split; congruence. Qed.
+
+Lemma project_to_angle_enc g onto :
+  let c := cosF L (grade_angle (sub_vv onto (ang g))) in
+  project_to_angle L g onto =
+    if fge c zero then {| mag := fmul (mag g) c; ang := {| rem := zero; blade := 0 |} |}
+    else {| mag := fmul (mag g) (fneg c); ang := {| rem := zero; blade := 2 |} |}.
+Proof. unfold project_to_angle. rewrite new_0_1, new_1_1. destruct (fge _ zero); reflexivity. Qed.
+
+End WithLibm2.
+
+Section WithLibm3.
+Context (L : libm).
+
+Lemma add_same a b : aeqb (ang a) (ang b) = true ->
+  ang (gadd_vv L a b) = ang a /\ mag (gadd_vv L a b) = fadd (mag a) (mag b).
+Proof. intros H. destruct (gadd_paths L a b) as [P _]. rewrite (P H). split; reflexivity. Qed.
+
+Lemma add_opposite a b : aeqb (ang a) (ang b) = false ->
+  aeqb (add_vv (ang a) (new one one)) (ang b) || aeqb (add_vv (ang b) (new one one)) (ang a) = true ->
+  let diff := fsub (mag a) (mag b) in
+  gadd_vv L a b =
+    if flt (fabs diff) EPSILON then {| mag := zero; ang := new_with_blade (blade (ang a) + blade (ang b)) zero one |}
+    else if fgt diff zero then {| mag := diff; ang := ang a |} else {| mag := fneg diff; ang := ang b |}.
+Proof. intros H1 H2. destruct (gadd_paths L a b) as [_ [P _]]. exact (P H1 H2). Qed.
+
+Lemma wedge_blades a b : canonp (rem (ang a)) -> canonp (rem (ang b)) ->
+  canonp (rem (ang (wedge L a b))) /\
+  (blade (ang a) + blade (ang b) + 1 <= blade (ang (wedge L a b)) <= blade (ang a) + blade (ang b) + 4)%Z.
+Proof.
+intros Ca Cb. destruct (wedge_spec L a b) as [_ E]. rewrite E. clear E.
+unfold add_vv. rewrite new_1_2, new_1_1.
+destruct (geometric_add_canon (ang a) (ang b) Ca Cb) as [C1 B1].
+pose proof (step_by_k (geometric_add (ang a) (ang b)) 1 C1) as S1.
+pose proof (steps_canon _ _ _ C1 S1) as C2.
+destruct S1 as (B2 & _ & _).
+cbv zeta. destruct (flt _ zero).
+- pose proof (step_by_k _ 2 C2) as S2. pose proof (steps_canon _ _ _ C2 S2) as C3.
+  destruct S2 as (B3 & _ & _). split; [exact C3|]. rewrite B3, B2. destruct B1 as [B1|B1]; rewrite B1; lia.
+- split; [exact C2|]. rewrite B2. destruct B1 as [B1|B1]; rewrite B1; lia.
+Qed.
+
+End WithLibm3.
